@@ -158,6 +158,14 @@ class timemodel(_coreiterative):
         for i in range(f.neq):
             f.data[i] += dt * self.residual[i]  # time can be scalar or np.array
 
+    def _get_history(self):
+        """history of multistep integrators (None if none), see _set_history"""
+        return None
+
+    def _set_history(self, history):
+        """restore (or clear with None) the history of multistep integrators"""
+        pass
+
     def _check_end(self, stop):
         """
         """
@@ -230,6 +238,7 @@ class timemodel(_coreiterative):
             stop=None, flush=None, monitors={}, directives={}):
         """ """
         self.reset(itstart=0) # reset cputime and nit
+        self._set_history(None) # a new computation starts without multistep history (restart keeps it)
         self._remove_monitor_output(monitors)
         return self._solve(f, condition, tsave, stop, flush, monitors, directives)
 
@@ -296,7 +305,9 @@ class timemodel(_coreiterative):
                     # compute smaller step with same integrator
                     dtsave = tsave[isave]-self.Qn.time
                     if dtsave > 0.: # a save time equal to the current time is the current state (implicit steps divide by dt)
+                        history = self._get_history() # the side step must not alter the history of multistep integrators
                         self.step(Qnn, dtsave)
+                        self._set_history(history)
                     Qnn.it = self._itstart + self._nit
                     results.append(Qnn)
                     if verbose:
@@ -744,6 +755,16 @@ class gear(trapezoidal):
             self.add_res(field, dtloc)
         self._lastresidual = self.residual
         return
+
+    def _get_history(self):
+        return getattr(self, "_lastresidual", None)
+
+    def _set_history(self, history):
+        if history is None:
+            if hasattr(self, "_lastresidual"):
+                del self._lastresidual
+        else:
+            self._lastresidual = history
 
 
 
